@@ -31,6 +31,7 @@ var Registry = map[string]func(tier string, args []string) int{
 	"C02": C02,
 	"C06": C06,
 	"C19": C19,
+	"C15": C15,
 	"C14": func(t string, a []string) int { return C14(t) },
 	"C11": func(t string, a []string) int { return C11(t) },
 	"C18": func(t string, a []string) int { return C18(t) },
